@@ -9,10 +9,6 @@ T  spec/js/JsTokensTrace.tla   judges the traces of harness/suites/jstok (js.Lex
 import json
 import os
 
-QUICK = [("pairs", "Gen_pairs.cfg", 1), ("ctxpairs", "Gen_ctxpairs.cfg", 2), ("triples", "Gen_triples.cfg", 1), ("seps", "Gen_seps.cfg", 2),
-         ("edges", "Gen_edges.cfg", 2), ("regexp", "Gen_regexp.cfg", 1), ("nest", "Gen_nest.cfg", 1)]
-THOROUGH = [("pairs", "Gen_pairs.cfg", 3), ("ctxpairs_t", "Gen_ctxpairs_t.cfg", 1), ("triples_t", "Gen_triples_t.cfg", 1),
-            ("seps_t", "Gen_seps_t.cfg", 2), ("edges", "Gen_edges.cfg", 4), ("regexp_t", "Gen_regexp_t.cfg", 1), ("nest_t", "Gen_nest_t.cfg", 1)]
 TRIVIA = ("Whitespace", "LineTerminator", "Comment", "CommentLineTerminator")
 
 
@@ -54,7 +50,7 @@ def classify(f):
         return prev, here, "panic", ev
     # all-input invariants first
     if ev.get("cls") in ("kw", "punct", "op") and ev.get("text") != ev.get("canon"):
-        return "", "canonical-spelling", "%s-has-text-%s" % (ev.get("kname"), text_of(ev.get("text"))), ev
+        return "", "canonical-spelling", "%s" % ev.get("kname"), ev
     if ev.get("kname") in ("Comment", "CommentLineTerminator"):
         b = bytes(ev.get("text") or [])
         has = any(x in b for x in (b"\n", b"\r", b"\xe2\x80\xa8", b"\xe2\x80\xa9"))
@@ -135,9 +131,13 @@ def judge(ck, fails, origin):
         o = f["trace"][0]
         obs = [{"kind": x.get("kname"), "text": text_of(o["input"], x.get("lo"), x.get("hi")), "err": x.get("etext")} for x in f["trace"][1:f["i"] + 1]][-4:]
         exp = [{"kind": k_, "text": text_of(o["input"], lo, hi)} for k_, lo, hi in zip(o["ek"], o["elo"], o["ehi"])]
-        what = "js.Lexer on %s: report %d is %s, JsTokens.tla expects %s (units %s)" % (
-            json.dumps(text_of(o["input"])), f["i"], json.dumps(obs[-1], ensure_ascii=False),
-            json.dumps(exp[f["i"] - 1] if f["i"] - 1 < len(exp) else "end of input", ensure_ascii=False), o.get("units"))
+        if o.get("free") or s.count("/") == 2 and "|" not in s:
+            want = "TokenInv of JsTokens.tla (canonical spelling of keyword/punctuator/operator types; CommentLineTerminator iff the comment has a line terminator)"
+        else:
+            want = "JsTokens.tla expects %s (units %s)" % (
+                json.dumps(exp[f["i"] - 1] if f["i"] - 1 < len(exp) else "end of input", ensure_ascii=False), o.get("units"))
+        what = "js.Lexer on %s: report %d is %s (canonical %s); %s" % (
+            json.dumps(text_of(o["input"])), f["i"], json.dumps(obs[-1], ensure_ascii=False), json.dumps(text_of(ev.get("canon") or [])), want)
         ck.violation(s, what, {"suite": "jstok", "origin": origin, **open_record(o), "input_text": text_of(o["input"]),
                                "expected": exp, "observed_tail": obs, "rejected_event_index": f["i"],
                                "how": "bin/check C06 --replay <this file> lexes the input again (RegExp() at the marked offsets) and validates "
@@ -180,50 +180,76 @@ def selftest(ck, tp):
         ck.fatal("selftest: JsTokensTrace accepted a corrupted token kind or a dropped report (rejected: %s)" % sorted(rej))
 
 
-def step(ck, plan, cfg, variants, used_all, **tlckw):
-    cases = ck.path("cases-%s.ndjson" % plan)
-    r = ck.tlc("js", "JsTokensGen", cfg, label="generator: " + plan, env={"VERIF_CASES": cases}, timeout=280, **{"workers": 4, **tlckw})
-    if not os.path.exists(cases):
-        ck.fatal("generator %s wrote no cases" % plan)
-    tp = ck.path("trace-%s.ndjson" % plan)
-    s = ck.drive("jstok", "replay", "-cases", cases, "-out", tp, "-seed", ck.seed, "-variants", variants, "-mutevery", 25, timeout=600)
-    if s["cases"] == 0:
-        ck.fatal("generator %s produced no cases" % plan)
+def group(ck, name, plans, used_all, selftest_here=False):
+    """TLC generates every plan of the group; the cases are replayed in one harness run and judged in one validation."""
+    allc = ck.path("cases-%s.ndjson" % name)
+    total = 0
+    with open(allc, "w") as out:
+        for plan, cfg, variants, tlckw in plans:
+            cases = ck.path("cases-%s.ndjson" % plan)
+            r = ck.tlc("js", "JsTokensGen", cfg, label="generator: " + plan, env={"VERIF_CASES": cases}, timeout=280, **{"workers": 4, **tlckw})
+            if not os.path.exists(cases):
+                ck.fatal("generator %s wrote no cases" % plan)
+            n = 0
+            for line in open(cases):
+                out.write(line)
+                n += 1
+            if n < 2:
+                ck.fatal("generator %s produced no cases" % plan)
+            if r.distinct and n > r.distinct + 1:
+                ck.fatal("more cases than states in %s" % plan)
+            ck.cov.setdefault("cases_by_plan", {})[plan] = n - 1
+            total += n - 1
+            os.remove(cases)
+    tp = ck.path("trace-%s.ndjson" % name)
+    double = ",".join(pl for pl, _, v, _ in plans if v == 2) or "-"
+    s = ck.drive("jstok", "replay", "-cases", allc, "-out", tp, "-seed", ck.seed, "-double", double, "-mutevery", 25, timeout=900)
+    if s["cases"] != total:
+        ck.fatal("group %s: %d cases generated, %d replayed" % (name, total, s["cases"]))
     vocab = s.get("vocab")        # the vocabulary line TLC wrote, and how often each atom occurs in the cases
     if not vocab:
-        ck.fatal("generator %s did not emit its vocabulary" % plan)
+        ck.fatal("generators of group %s did not emit the vocabulary" % name)
     for a, n in (s.get("used") or {}).items():
         used_all[a] = used_all.get(a, 0) + n
-    if r.distinct and s["cases"] > r.distinct:
-        ck.fatal("more cases than states in %s" % plan)
     ck.cov["evaluations"] += s["executions"] + s["free_executions"]
     ck.cov["distinct_nontrivial"] += s["distinct_nontrivial"]
-    ck.cov["samples"] += (s.get("samples") or [])[:1]
-    ck.cov.setdefault("cases_by_plan", {})[plan] = s["cases"]
-    judge(ck, ck.validate("js", "JsTokensTrace", "JsTokensTrace.cfg", tp, timeout=900), plan)
-    if plan == "edges":
+    ck.cov["samples"] += (s.get("samples") or [])[:2]
+    judge(ck, ck.validate("js", "JsTokensTrace", "JsTokensTrace.cfg", tp, timeout=900), name)
+    if selftest_here:
         selftest(ck, tp)
     os.remove(tp)
-    os.remove(cases)
+    os.remove(allc)
     return vocab
 
 
 def run(ck):
     thorough = ck.tier == "thorough"
     used, vocab = {}, None
-    for plan, cfg, variants in (THOROUGH if thorough else QUICK):
-        vocab = step(ck, plan, cfg, variants, used)
-    # vacuity: every atom of the vocabulary occurs in some exhaustive case
+    sim = {"simulate": 20000, "depth": 40, "seed": ck.seed, "workers": 1}     # TLC's simulation workers share the seed: one worker
+    if thorough:
+        groups = [("g1", [("pairs", "Gen_pairs.cfg", 2, {}), ("seps_t", "Gen_seps_t.cfg", 2, {}), ("edges", "Gen_edges.cfg", 2, {}),
+                          ("regexp_t", "Gen_regexp_t.cfg", 1, {})]),
+                  ("g2", [("ctxpairs_t", "Gen_ctxpairs_t.cfg", 1, {})]),
+                  ("g3", [("triples_t", "Gen_triples_t.cfg", 1, {})]),
+                  ("g4", [("nest_t", "Gen_nest_t.cfg", 1, {})])]
+    else:
+        groups = [("g1", [("pairs", "Gen_pairs.cfg", 1, {}), ("ctxpairs", "Gen_ctxpairs.cfg", 2, {}), ("triples", "Gen_triples.cfg", 1, {}),
+                          ("seps", "Gen_seps.cfg", 2, {}), ("edges", "Gen_edges.cfg", 2, {}), ("regexp", "Gen_regexp.cfg", 1, {}),
+                          ("nest", "Gen_nest.cfg", 1, {})])]
+    for k, (name, plans) in enumerate(groups):
+        vocab = group(ck, name, plans, used, selftest_here=(k == 0))
+    # vacuity: every atom of the vocabulary occurs in some exhaustively enumerated case
     missing = sorted(set(vocab) - set(used))
     if missing:
         ck.fatal("atoms of JsTokens.tla never used by the generators: %s" % missing)
     ck.cov["atoms"] = len(vocab)
-    ck.cov["least_used_atoms"] = sorted(used.items(), key=lambda x: x[1])[:5]
+    ck.cov["least_used_atoms"] = sorted(used.items(), key=lambda x: (x[1], x[0]))[:5]
     ck.cov["exhaustive"] = True
     if thorough:
-        step(ck, "seq", "Gen_seq.cfg", 2, used, simulate=20000, depth=40, seed=ck.seed, workers=1)   # workers share the seed: one worker
+        group(ck, "g5", [("seq", "Gen_seq.cfg", 2, sim)], used)
         ck.cov["exhaustive"] = "all plans but seq (simulation: 20000 behaviours of 12 units, cases at 4, 8, 12)"
-    ck.cov["constants"] = {"MaxNest": 3, "MaxBody": 3 if thorough else 2, "MaxLen (seq)": 12, "MaxLen (nest)": 6 if thorough else 5, "plans": [p for p, _, _ in (THOROUGH if thorough else QUICK)]}
+    plans_run = [pl for _, ps in groups for pl, _, _, _ in ps] + (["seq"] if thorough else [])
+    ck.cov["constants"] = {"MaxNest": 3, "MaxBody": 3 if thorough else 2, "MaxLen (seq)": 12, "MaxLen (nest)": 6 if thorough else 5, "plans": plans_run}
     ck.cov["rule"] = ("a case is a sequence of units (atoms of JsTokens.tla, one token each) that TLC derived with a separator choice at every "
                       "boundary, allowed by NeedsSep/MergesStrict and the bracket context; spelled by seed (keyword and punctuator atoms have one "
                       "spelling); pairs: every two significant units x {none when safe, space, tab, LF, U+2028, comment}; ctxpairs: inside `${ }; "
